@@ -114,3 +114,332 @@ pub fn ref_unused_mask(k: RefKind) -> u32 {
         RefKind::Bool | RefKind::Str | RefKind::Raw => always | TI_FIXP | TI_TYLE_MASK,
     }
 }
+
+// =============================================================================================
+// Reference ENCODER of whole messages (AUTOSAR DLT PRS layout), writing into a fixed buffer.
+// =============================================================================================
+use crate::dlt::*;
+
+pub const CAP: usize = 112;
+
+pub struct Out {
+    pub b: [u8; CAP],
+    pub n: usize,
+}
+impl Out {
+    pub fn new() -> Self {
+        Out { b: [0; CAP], n: 0 }
+    }
+    pub fn put(&mut self, x: u8) {
+        if self.n < CAP {
+            self.b[self.n] = x;
+        }
+        self.n += 1;
+    }
+    pub fn put_slice(&mut self, s: &[u8]) {
+        let mut i = 0;
+        while i < s.len() {
+            self.put(s[i]);
+            i += 1;
+        }
+    }
+    pub fn put_u16(&mut self, v: u16, big: bool) {
+        if big { self.put_slice(&v.to_be_bytes()) } else { self.put_slice(&v.to_le_bytes()) }
+    }
+    pub fn put_u32(&mut self, v: u32, big: bool) {
+        if big { self.put_slice(&v.to_be_bytes()) } else { self.put_slice(&v.to_le_bytes()) }
+    }
+    pub fn put_u64(&mut self, v: u64, big: bool) {
+        if big { self.put_slice(&v.to_be_bytes()) } else { self.put_slice(&v.to_le_bytes()) }
+    }
+    pub fn put_u128(&mut self, v: u128, big: bool) {
+        if big { self.put_slice(&v.to_be_bytes()) } else { self.put_slice(&v.to_le_bytes()) }
+    }
+    /// 4-byte id field: the id bytes padded with NUL
+    pub fn put_id4(&mut self, id: &str) {
+        let b = id.as_bytes();
+        let mut i = 0;
+        while i < 4 {
+            self.put(if i < b.len() { b[i] } else { 0 });
+            i += 1;
+        }
+    }
+    pub fn as_slice(&self) -> &[u8] {
+        &self.b[..if self.n < CAP { self.n } else { CAP }]
+    }
+    pub fn eq_bytes(&self, other: &[u8]) -> bool {
+        if self.n > CAP || other.len() != self.n {
+            return false;
+        }
+        let mut i = 0;
+        while i < self.n {
+            if self.b[i] != other[i] {
+                return false;
+            }
+            i += 1;
+        }
+        true
+    }
+}
+
+pub fn ref_msin(t: &MessageType) -> u8 {
+    let (mstp, mtin): (u8, u8) = match t {
+        MessageType::Log(l) => (0, match l {
+            LogLevel::Fatal => 1,
+            LogLevel::Error => 2,
+            LogLevel::Warn => 3,
+            LogLevel::Info => 4,
+            LogLevel::Debug => 5,
+            LogLevel::Verbose => 6,
+            LogLevel::Invalid(v) => *v,
+        }),
+        MessageType::ApplicationTrace(a) => (1, match a {
+            ApplicationTraceType::Variable => 1,
+            ApplicationTraceType::FunctionIn => 2,
+            ApplicationTraceType::FunctionOut => 3,
+            ApplicationTraceType::State => 4,
+            ApplicationTraceType::Vfb => 5,
+            ApplicationTraceType::Invalid(v) => *v,
+        }),
+        MessageType::NetworkTrace(n) => (2, match n {
+            NetworkTraceType::Invalid => 0,
+            NetworkTraceType::Ipc => 1,
+            NetworkTraceType::Can => 2,
+            NetworkTraceType::Flexray => 3,
+            NetworkTraceType::Most => 4,
+            NetworkTraceType::Ethernet => 5,
+            NetworkTraceType::Someip => 6,
+            NetworkTraceType::UserDefined(v) => *v,
+        }),
+        MessageType::Control(c) => (3, match c {
+            ControlType::Request => 1,
+            ControlType::Response => 2,
+            ControlType::Unknown(v) => *v,
+        }),
+        MessageType::Unknown((a, b)) => (*a, *b),
+    };
+    ((mstp & 7) << 1) | ((mtin & 0xF) << 4)
+}
+
+/// canonical codes: the sub-type number is not one that has its own variant, and fits its field
+pub fn msg_type_canonical(t: &MessageType) -> bool {
+    match t {
+        MessageType::Log(LogLevel::Invalid(v)) => (*v == 0 || *v > 6) && *v <= 15,
+        MessageType::ApplicationTrace(ApplicationTraceType::Invalid(v)) => (*v == 0 || *v > 5) && *v <= 15,
+        MessageType::NetworkTrace(NetworkTraceType::UserDefined(v)) => *v > 6 && *v <= 15,
+        MessageType::Control(ControlType::Unknown(v)) => (*v == 0 || *v > 2) && *v <= 15,
+        MessageType::Unknown((a, b)) => *a >= 4 && *a <= 7 && *b <= 15,
+        _ => true,
+    }
+}
+
+pub fn ref_htyp(h: &StandardHeader) -> u8 {
+    (if h.has_extended_header { UEH } else { 0 })
+        | (if h.endianness == Endianness::Big { MSBF } else { 0 })
+        | (if h.ecu_id.is_some() { WEID } else { 0 })
+        | (if h.session_id.is_some() { WSID } else { 0 })
+        | (if h.timestamp.is_some() { WTMS } else { 0 })
+        | ((h.version & 7) << 5)
+}
+
+pub fn ref_put_storage_header(o: &mut Out, sh: &StorageHeader) {
+    o.put(b'D');
+    o.put(b'L');
+    o.put(b'T');
+    o.put(1);
+    o.put_u32(sh.timestamp.seconds, false);
+    o.put_u32(sh.timestamp.microseconds, false);
+    o.put_id4(&sh.ecu_id);
+}
+
+/// standard header with the given overall length LEN
+pub fn ref_put_std_header(o: &mut Out, h: &StandardHeader, len: u16) {
+    o.put(ref_htyp(h));
+    o.put(h.message_counter);
+    o.put_u16(len, true);
+    if let Some(id) = &h.ecu_id {
+        o.put_id4(id);
+    }
+    if let Some(s) = h.session_id {
+        o.put_u32(s, true);
+    }
+    if let Some(t) = h.timestamp {
+        o.put_u32(t, true);
+    }
+}
+
+pub fn ref_put_ext_header(o: &mut Out, e: &ExtendedHeader) {
+    o.put(ref_msin(&e.message_type) | (if e.verbose { 1 } else { 0 }));
+    o.put(e.argument_count);
+    o.put_id4(&e.application_id);
+    o.put_id4(&e.context_id);
+}
+
+pub fn ref_type_info_word(ti: &TypeInfo) -> u32 {
+    fn tyle(t: TypeLength) -> u32 {
+        match t {
+            TypeLength::BitLength8 => 1,
+            TypeLength::BitLength16 => 2,
+            TypeLength::BitLength32 => 3,
+            TypeLength::BitLength64 => 4,
+            TypeLength::BitLength128 => 5,
+        }
+    }
+    fn tylf(t: FloatWidth) -> u32 {
+        match t {
+            FloatWidth::Width32 => 3,
+            FloatWidth::Width64 => 4,
+        }
+    }
+    let k = match ti.kind {
+        TypeInfoKind::Bool => TI_BOOL,
+        TypeInfoKind::Signed(w) => TI_SINT | tyle(w),
+        TypeInfoKind::SignedFixedPoint(w) => TI_SINT | TI_FIXP | tylf(w),
+        TypeInfoKind::Unsigned(w) => TI_UINT | tyle(w),
+        TypeInfoKind::UnsignedFixedPoint(w) => TI_UINT | TI_FIXP | tylf(w),
+        TypeInfoKind::Float(w) => TI_FLOA | tylf(w),
+        TypeInfoKind::StringType => TI_STRG,
+        TypeInfoKind::Raw => TI_RAWD,
+    };
+    let scod: u32 = match ti.coding {
+        StringCoding::ASCII => 0,
+        StringCoding::UTF8 => 1,
+        StringCoding::Reserved(v) => (v & 7) as u32,
+    };
+    k | (if ti.has_variable_info { TI_VARI } else { 0 })
+        | (if ti.has_trace_info { TI_TRAI } else { 0 })
+        | (scod << TI_SCOD_SHIFT)
+}
+
+fn put_text(o: &mut Out, s: &str) {
+    o.put_slice(s.as_bytes());
+    o.put(0);
+}
+
+/// one verbose argument (well-formed: value variant / fixed-point data / name / unit presence
+/// match the type info)
+pub fn ref_put_argument(o: &mut Out, a: &Argument, big: bool) {
+    o.put_u32(ref_type_info_word(&a.type_info), big);
+    let vari = a.type_info.has_variable_info;
+    let name: &str = match &a.name { Some(n) => n, None => "" };
+    let unit: &str = match &a.unit { Some(n) => n, None => "" };
+    match a.type_info.kind {
+        TypeInfoKind::Bool => {
+            if vari {
+                o.put_u16(name.len() as u16 + 1, big);
+                put_text(o, name);
+            }
+            if let Value::Bool(v) = a.value {
+                o.put(v);
+            }
+        }
+        TypeInfoKind::StringType => {
+            if let Value::StringVal(s) = &a.value {
+                o.put_u16(s.len() as u16 + 1, big);
+                if vari {
+                    o.put_u16(name.len() as u16 + 1, big);
+                    put_text(o, name);
+                }
+                put_text(o, s);
+            }
+        }
+        TypeInfoKind::Raw => {
+            if let Value::Raw(b) = &a.value {
+                o.put_u16(b.len() as u16, big);
+                if vari {
+                    o.put_u16(name.len() as u16 + 1, big);
+                    put_text(o, name);
+                }
+                o.put_slice(b);
+            }
+        }
+        _ => {
+            if vari {
+                o.put_u16(name.len() as u16 + 1, big);
+                o.put_u16(unit.len() as u16 + 1, big);
+                put_text(o, name);
+                put_text(o, unit);
+            }
+            if let Some(fp) = &a.fixed_point {
+                o.put_u32(fp.quantization.to_bits(), big);
+                match fp.offset {
+                    FixedPointValue::I32(v) => o.put_u32(v as u32, big),
+                    FixedPointValue::I64(v) => o.put_u64(v as u64, big),
+                }
+            }
+            match a.value {
+                Value::U8(v) => o.put(v),
+                Value::I8(v) => o.put(v as u8),
+                Value::U16(v) => o.put_u16(v, big),
+                Value::I16(v) => o.put_u16(v as u16, big),
+                Value::U32(v) => o.put_u32(v, big),
+                Value::I32(v) => o.put_u32(v as u32, big),
+                Value::U64(v) => o.put_u64(v, big),
+                Value::I64(v) => o.put_u64(v as u64, big),
+                Value::U128(v) => o.put_u128(v, big),
+                Value::I128(v) => o.put_u128(v as u128, big),
+                Value::F32(v) => o.put_u32(v.to_bits(), big),
+                Value::F64(v) => o.put_u64(v.to_bits(), big),
+                _ => {}
+            }
+        }
+    }
+}
+
+pub fn ref_put_payload(o: &mut Out, p: &PayloadContent, big: bool) {
+    match p {
+        PayloadContent::Verbose(args) => {
+            let mut i = 0;
+            while i < args.len() {
+                ref_put_argument(o, &args[i], big);
+                i += 1;
+            }
+        }
+        PayloadContent::NonVerbose(id, data) => {
+            o.put_u32(*id, big);
+            o.put_slice(data);
+        }
+        PayloadContent::ControlMsg(ct, data) => {
+            o.put(match ct {
+                ControlType::Request => 1,
+                ControlType::Response => 2,
+                ControlType::Unknown(v) => *v,
+            });
+            o.put_slice(data);
+        }
+        PayloadContent::NetworkTrace(slices) => {
+            // each slice is a raw-data argument: type info RAWD, 16-bit length, bytes
+            let mut i = 0;
+            while i < slices.len() {
+                o.put_u32(TI_RAWD, big);
+                o.put_u16(slices[i].len() as u16, big);
+                o.put_slice(&slices[i]);
+                i += 1;
+            }
+        }
+    }
+}
+
+/// whole message; LEN is computed from the encoded parts (not from `header.payload_length`)
+pub fn ref_encode_message(m: &Message) -> Out {
+    let big = m.header.endianness == Endianness::Big;
+    let mut pl = Out::new();
+    ref_put_payload(&mut pl, &m.payload, big);
+    let len = ref_all_headers_len(ref_htyp(&m.header)) as usize + pl.n;
+    let mut o = Out::new();
+    if let Some(sh) = &m.storage_header {
+        ref_put_storage_header(&mut o, sh);
+    }
+    ref_put_std_header(&mut o, &m.header, len as u16);
+    if let Some(e) = &m.extended_header {
+        ref_put_ext_header(&mut o, e);
+    }
+    o.put_slice(pl.as_slice());
+    o
+}
+
+pub fn ref_payload_len(p: &PayloadContent, big: bool) -> usize {
+    let mut pl = Out::new();
+    ref_put_payload(&mut pl, p, big);
+    pl.n
+}
